@@ -73,6 +73,10 @@ pub struct SimScenario {
     /// distance between consecutive function entries = extent of one function
     #[serde(default = "default_pitch")]
     pub pitch: u64,
+    /// the page right after the text is a readable mapping nobody can re-protect or write (a
+    /// read-only shared file mapping), if that page is free
+    #[serde(default)]
+    pub immutable_after_text: bool,
     pub lifetimes: Vec<Lifetime>,
     /// free-text classes used for the distinct-case measure
     pub classes: Vec<String>,
@@ -167,6 +171,7 @@ pub fn tight_pitch(arch: Arch) -> u64 {
 }
 
 pub struct Layout {
+    pub immutable_after_text: bool,
     pub pitch: u64,
     pub text: Vec<TextRegion>,
     pub foreign: Vec<(u64, u64)>,
@@ -248,6 +253,7 @@ pub fn gen_layout(rng: &mut Rng, arch: Arch, os: Os, pol: &PolicySpec, o: &Layou
     classes.push(format!("off{oc}"));
     let mut targets = Vec::new();
     let mut bystanders = Vec::new();
+    let mut used_last_slot = false;
     let mut next = fixup(base + off);
     let thumbish = |rng: &mut Rng, a: u64| -> u64 {
         if arch == Arch::Arm {
@@ -284,6 +290,7 @@ pub fn gen_layout(rng: &mut Rng, arch: Arch, os: Os, pol: &PolicySpec, o: &Layou
         // next slot: 16-byte pitch, sometimes a jump to another place in the area
         next = if tight && rng.chance(1, 8) {
             // the last function of the text area: nothing mapped behind it in some neighbourhoods
+            used_last_slot = true;
             base + text_pages * ps - pitch
         } else if rng.chance(1, 5) {
             let lim = (text_pages - 1) * ps;
@@ -409,7 +416,11 @@ pub fn gen_layout(rng: &mut Rng, arch: Arch, os: Os, pol: &PolicySpec, o: &Layou
             classes.push("forwarder-target".into());
         }
     }
-    Layout { pitch, text, foreign, targets, bystanders, classes, hole, forwarders }
+    let immutable_after_text = used_last_slot && rng.chance(1, 2);
+    if immutable_after_text {
+        classes.push("immutable-page-after-text".into());
+    }
+    Layout { immutable_after_text, pitch, text, foreign, targets, bystanders, classes, hole, forwarders }
 }
 
 /// A fake address for x86-64 / A64: anywhere in the 64-bit space, biased to the rel32 boundary
@@ -649,9 +660,14 @@ pub fn generate(profile: &str, variant: &str, seed: u64, index: u64) -> SimScena
             opts.hood_class = Some(if rng.chance(1, 25) { 2 } else { *rng.pick(&[0, 0, 0, 3, 3]) });
             buggify_kernel(&mut rng, &mut pol, &mut classes, false);
             let l = gen_layout(&mut rng, arch, os, &pol, &opts);
-            let n_l = 1 + rng.below(4) as usize;
+            // rarely: one lifetime that keeps several hundred fakes alive at once
+            let mass = rng.chance(1, 400);
+            if mass {
+                classes.push("mass-installs".into());
+            }
+            let n_l = if mass { 1 } else { 1 + rng.below(4) as usize };
             for _ in 0..n_l {
-                let n_ops = rng.below(9) as usize;
+                let n_ops = if mass { 345 + rng.below(80) as usize } else { rng.below(9) as usize };
                 let mut ops = Vec::new();
                 let mut counts = vec![0u32; l.targets.len()];
                 for _ in 0..n_ops {
@@ -850,6 +866,7 @@ fn finish(
         bystanders: l.bystanders,
         forwarders: l.forwarders,
         pitch: l.pitch,
+        immutable_after_text: l.immutable_after_text,
         lifetimes,
         classes,
     }
